@@ -298,7 +298,13 @@ unsigned ZSTD_seekTable_offsetToFrameIndex(const ZSTD_seekTable* st, unsigned lo
         return (unsigned)st->tableLen;
     }
 
-    while (lo + 1 < hi) {
+    while (lo + 1 < hi)
+    ZSTD_VERIF_LOOP(
+        __CPROVER_assigns(lo, hi)
+        __CPROVER_loop_invariant(lo < hi && hi <= (U32)st->tableLen
+                              && st->entries[lo].dOffset <= pos && pos < st->entries[hi].dOffset)
+        __CPROVER_decreases(hi - lo))
+    {
         U32 const mid = lo + ((hi - lo) >> 1);
         if (st->entries[mid].dOffset <= pos) {
             lo = mid;
